@@ -22,7 +22,7 @@ cp "$D" "$dir/zz_demo_test.go"; for h in "$@"; do cp "$h" "$dir/"; done
 run_demo() { go test -count=1 $1 ./$dir -run 'Demo|demo|Linked|TestDemo' 2>&1 | tail -3 | tr '\n' ' '; }
 demo_clean=$(run_demo ""); demo_clean_n=$(run_demo "-tags noasm")
 rm -f "$dir/zz_demo_test.go"; for h in "$@"; do rm -f "$dir/$(basename $h)"; done
-git apply "$P" || { echo '{"error":"patch does not apply"}'; exit 2; }
+{ git apply "$P" 2>/dev/null || patch -p1 -s -F3 < "$P"; } || { echo '{"error":"patch does not apply"}'; exit 2; }
 build=ok; go build ./... 2>/dev/null || build=FAIL
 suite "" > /tmp/cm_mut.$$; suite "-tags noasm" > /tmp/cm_mut_n.$$
 same=yes; cmp -s /tmp/cm_base.$$ /tmp/cm_mut.$$ || same=no; cmp -s /tmp/cm_base_n.$$ /tmp/cm_mut_n.$$ || same=no
